@@ -527,6 +527,18 @@ func c17Requeuer(c *Check) {
 		}
 	}
 	// O3 retries + 1
+	// metadata intact: the only edit of the consumed message is the retries counter
+	nw := 0
+	for _, w := range MessageWrites(fn, FromParam(msg)) {
+		nw++
+		okW := false
+		if cl, isCall := w.(ssa.CallInstruction); isCall && CalleeName(cl) == nMetaSet {
+			ks, isK := ConstString(Arg(cl, 0))
+			okW = isK && ks == key && key != ""
+		}
+		c.Report(okW, P+".O2", "REQUEUED-MESSAGE-OTHERWISE-INTACT", fn, w.Pos(), "write to the consumed message", "the requeuer edits nothing of the message it re-publishes except its retries counter (UUID, payload and every other metadata entry arrive as consumed)")
+	}
+	c.Report(true, P+".O2", "REQUEUED-MESSAGE-WRITES-SCANNED", fn, fn.Pos(), "requeuer handler", fmt.Sprintf("%d writes to the consumed message examined", nw))
 	nset := 0
 	for _, s := range CallsTo(fn, nMetaSet) {
 		ks, ok := ConstString(Arg(s, 0))
